@@ -108,6 +108,7 @@ func C13(c *Ctx) {
 	c13ConstIndex(c, g)
 	c13SubtractedSubscripts(c, g)
 	c13DelimiterSlices(c, g)
+	c13Reevaluation(c, g)
 	c13FailedAssertions(c, g)
 	// the class name that reaches rangeTable (which panics on a name it does not know, in the builder under
 	// -optimize-basic-latin and in the package initialisation of the generated parser) is the name the front-end
